@@ -123,7 +123,10 @@ def monitor(case, il, sl):
                 n = payload[6]
                 return ("the Connection.Close of a client exception is malformed: reply-text length byte says %d, %d argument bytes follow (text longer than 255 bytes)" % (n, len(payload) - 4), "c07-close-malformed")
             code = int.from_bytes(payload[4:6], "big")
-            if exc_code is not None and code != exc_code and clean:
+            # (if the client's own Connection.Close was queued before the violation, that frame stays the
+            #  last one - C08 - and the exception can only show in the result, not on the wire)
+            own_close_first = any(o.startswith("send 0 close0") for o, _g in tr.al[:k])
+            if exc_code is not None and code != exc_code and clean and not (own_close_first and code == 200):
                 return ("client exception closes with code %d, the violation calls for %d" % (code, exc_code), "c07-code")
     return None
 
@@ -321,8 +324,47 @@ def gen_after_exception(tier, seed, closers=None, prefix="e"):
     return cases
 
 
+def gen_violation_after_close(tier, seed):
+    """The client's own Connection.Close is queued (flushed completely / partly / not at all); before
+    the server's CloseOk a protocol violation arrives: it is still a client exception (close reports
+    ClientException) even though nothing more can be written; with or without a CloseOk afterwards."""
+    rng = Rng(seed + 7117)
+    cases = []
+    n = 0
+    viols = [lambda: mg.not_allowed(rng, 1), lambda: mg.not_implemented(rng, 2), lambda: mg.header(0, 3), lambda: mg.connection_on_channel(rng, 1),
+             lambda: mg.body(0, b"x"), lambda: mg.not_implemented(rng, 0)]
+    for vi, mk in enumerate(viols):
+        for fl in ("full", "partial", "none"):
+            for tail in ("closeok", "nothing", "eof"):
+                g = Gen(rng, chmax=2, bound=4, via_stream=0.0)
+                h1 = g.open_channel(1); g.bind_opened(h1, 1)
+                h2 = g.open_channel(2); g.bind_opened(h2, 2)
+                g.consume(h1, "t1")
+                g.op("wscript w:1000000"); g.op("write")
+                g.op("send 0 close0 %s" % hx(amqp.connection_close(200, "goodbye"))); g.op("ev 0")
+                if fl == "full":
+                    g.op("wscript w:1000000"); g.op("write")
+                elif fl == "partial":
+                    g.op("wscript w:5 wb"); g.op("write")
+                g.op("dump")
+                g.feed([mk()], direct=True)
+                g.op("dump")
+                g.op("wscript w:1000000"); g.op("write"); g.op("dump")
+                if tail == "closeok":
+                    g.feed([mg.conn_close_ok()], direct=True)
+                elif tail == "eof":
+                    g.op("feed eof"); g.op("ev stream r")
+                g.op("recv 0 -")
+                g.finish()
+                n += 1
+                cases.append(g.case("x%d" % n))
+    return cases
+
+
 def suites(tier, seed):
     return [
+        Suite("violation-after-own-close", "machine", lambda: gen_violation_after_close(tier, seed), monitor=monitor, nontrivial=lambda c, il: True, canon=mg.canon_nondet, candidate_ok=mg.candidate_ok, exhaustive=True,
+              rule="the client's own Connection.Close queued and flushed completely / up to its 5th byte / not at all, THEN a violation from the server (client-only method, unimplemented method on a channel and on channel 0, content header / body on channel 0, connection-class method on a channel), then CloseOk / nothing / EOF: the violation is still a client exception - the loop ends with ClientException, nothing further is written, every caller and consumer is released"),
         Suite("violations-random", "machine", lambda: gen_random(tier, seed), monitor=monitor, nontrivial=nontrivial, canon=mg.canon_nondet, candidate_ok=mg.candidate_ok,
               rule="random sessions (1-6 channels, consumers, deliveries, gets, returns) with a high rate of protocol violations: content without method, second header, overrun, content method inside content, frames for closed / never opened channels, content on channel 0, unknown and duplicate tags, client-only / unimplemented / connection-class methods, unsolicited replies; frames reach the client directly or through the stream + frame buffer"),
         Suite("violations-exhaustive", "machine", lambda: gen_exhaustive(tier, seed), monitor=monitor, nontrivial=nontrivial, exhaustive=(tier != "quick"),
